@@ -95,17 +95,24 @@ Lemma w_legit_ok :
   /\ chk_C20 t0 w_legit (run PCode t0 w_legit) = true.
 Proof. vm_compute. repeat split; reflexivity. Qed.
 
-(* (c), (e): growth that get_metrics does not show.  Browse; a PTR whose SRV never comes, and a
-   PTR of a type nobody browses (refused, but its map key is created); stop; an hour later:
-   the instance is still in pending_resolves and the foreign type still has an (empty) bucket *)
+(* (c), (e): state that get_metrics does not show.  Browse; a PTR whose SRV never comes, and a
+   PTR of a type nobody browses (refused, but its map key is created); stop.  The instance
+   waits in pending_resolves while its three follow-up queries run (they run although the
+   browse was stopped) and leaves it when they are over (repair e9e74a6); the foreign type
+   keeps an (empty) bucket in the PTR map for ever *)
 Definition w_hidden : list biter :=
   [ mkBI 1000000 [BSetIpInterval 0; BBrowse [95; 104; 116; 116; 112; 46; 95; 116; 99; 112; 46; 108; 111; 99; 97; 108; 46]] [];
     mkBI 1000010 [] [mkBM 2 [mkBR true 12 [95; 104; 116; 116; 112; 46; 95; 116; 99; 112; 46; 108; 111; 99; 97; 108; 46] 1 false 10 [97; 108; 112; 104; 97; 46; 95; 104; 116; 116; 112; 46; 95; 116; 99; 112; 46; 108; 111; 99; 97; 108; 46] [97; 108; 112; 104; 97; 46; 95; 104; 116; 116; 112; 46; 95; 116; 99; 112; 46; 108; 111; 99; 97; 108; 46]]; mkBM 2 [mkBR true 12 [95; 102; 111; 114; 101; 105; 103; 110; 46; 95; 116; 99; 112; 46; 108; 111; 99; 97; 108; 46] 1 false 10 [102; 49; 46; 95; 102; 111; 114; 101; 105; 103; 110; 46; 95; 116; 99; 112; 46; 108; 111; 99; 97; 108; 46] [102; 49; 46; 95; 102; 111; 114; 101; 105; 103; 110; 46; 95; 116; 99; 112; 46; 108; 111; 99; 97; 108; 46]]];
     mkBI 1000020 [BStopBrowse [95; 104; 116; 116; 112; 46; 95; 116; 99; 112; 46; 108; 111; 99; 97; 108; 46]] [];
+    mkBI 1000100 [] [];
+    mkBI 1000510 [] [];
+    mkBI 1001010 [] [];
+    mkBI 1001510 [] [];
     mkBI 5000000 [BMetrics] [] ].
 
 Lemma w_hidden_ok :
-  map (map reported) (run PCode t0 w_hidden) = [[]; []; []; [[0; 0; 0; 0; 0; 0; 0]]]
-  /\ b_pending (state_after PCode (b_init t0) w_hidden) = [[97; 108; 112; 104; 97; 46; 95; 104; 116; 116; 112; 46; 95; 116; 99; 112; 46; 108; 111; 99; 97; 108; 46]]
+  b_pending (state_after PCode (b_init t0) (firstn 4 w_hidden)) = [[97; 108; 112; 104; 97; 46; 95; 104; 116; 116; 112; 46; 95; 116; 99; 112; 46; 108; 111; 99; 97; 108; 46]]
+  /\ map (map reported) (run PCode t0 w_hidden) = [[]; []; []; []; []; []; []; [[0; 0; 0; 0; 0; 0; 0]]]
+  /\ b_pending (state_after PCode (b_init t0) w_hidden) = []
   /\ bc_ptr (b_cache (state_after PCode (b_init t0) w_hidden)) = [([95; 102; 111; 114; 101; 105; 103; 110; 46; 95; 116; 99; 112; 46; 108; 111; 99; 97; 108; 46], [])].
 Proof. vm_compute. repeat split; reflexivity. Qed.
